@@ -50,8 +50,19 @@ def register2(reg):
              ensures=['(result is not None) == uf_has_action(semantics, name)',
                       'implies(result is not None, same_func(result, uf_action(semantics, name)))'],
              note='getattr-based lookup of the action named after the rule / _default (reflection); bounded check B:C06/action-lookup')
-    contract(reg, f'{E}:ParserEngine.make_parseinfo', ['C06', 'C12'], {'self': 'Ctx', 'name': 'Val', 'pos': 'int'}, ret='Val', verify=False,
-             modifies=[], ensures=[], note='builds a ParseInfo tuple (C12 checks its content in a bounded run)')
+    # C12: the parse information of a rule exit: its name, the start offset it was given, the end offset = the position now,
+    # the line numbers of exactly those offsets (lineat is proved separately on the line-cache view of the cursor)
+    contract(reg, 'tatsu/input/textlines.py:TextLinesCursor.lineat#rec', ['C12'], {'self': 'Cursor', 'pos': 'int'}, ret='int', verify=False, pure=True,
+             modifies=[], wf=False, note='record view of the cursor: the line number is a function of (text object, offset); the function itself is '
+                                        'proved on the line-cache view (lineat#pos / lineat#none)')
+    TOPF = 'self.states.state_stack[-1]'
+    contract(reg, f'{E}:ParserEngine.make_parseinfo#off', ['C06', 'C12'], {'self': 'Ctx', 'name': 'Val', 'pos': 'int'}, ret='None',
+             guard='not self._active_config.parseinfo', modifies=[], requires=REQ, ensures=[])
+    contract(reg, f'{E}:ParserEngine.make_parseinfo#on', ['C06', 'C12'], {'self': 'Ctx', 'name': 'Val', 'pos': 'int'}, ret='ParseInfoR',
+             guard='self._active_config.parseinfo', modifies=[], requires=REQ,
+             ensures=[('property', f'result.rule == name and result.pos == pos and result.endpos == {TOPF}.cursor.pos'),
+                      ('property', f'result.line == {TOPF}.cursor.lineat(pos) and result.endline == {TOPF}.cursor.lineat({TOPF}.cursor.pos)'),
+                      ('property', f'result.cursor == {TOPF}.cursor and result.alerts == {TOPF}.alerts')])
     contract(reg, f'{E}:ParserEngine.set_parseinfo', ['C06', 'C04', 'C12'], {'self': 'Ctx', 'node': 'Val', 'name': 'str', 'pos': 'int'}, ret='None',
              verify=False, modifies=[], ensures=[],
              note='only adds the parseinfo entries to the node (hasattr-based); C04/C12 check that in bounded runs')
